@@ -1,0 +1,10 @@
+//go:build verif
+
+// Contracts for package link_solicit_controller, checked by /verif (bfvc). Comment-only.
+package link_solicit_controller
+
+// C34: the solicitation controller takes only the control protocol and
+// protocol IDs with the solicited-stream prefix.
+//@ func (*Controller).handleMountedStream
+//@   noframe
+//@   ensures ret0 != nil ==> d.HandleMountedStreamProtocolID() == "bifrost/solicit" || hasPrefix(d.HandleMountedStreamProtocolID(), "solicit:")
